@@ -219,6 +219,48 @@ def elementary_checks(verdict, spec, nss, tier, seed):
                     verdict.violation(f"ElemValue|affine|{ns}/{dt}", "affine forward differs from (x - mean)/std", scen)
                 if not np.allclose(np.asarray(smcdrv.to_np(xb), dtype=np.float64), d64, rtol=1e3 * eps, atol=1e3 * eps * np.abs(d64).max()):
                     verdict.violation(f"RoundTrip|affine|{ns}/{dt}", "inverse(forward(x)) != x", scen)
+    # ---- column law: a transform over several bounded parameters is the per-parameter transforms side
+    # by side, its log-Jacobian the *sum* of theirs - also when the product of the widths leaves the
+    # range of the float type (three widths of 2^45 in float32, 2^400 in float64, and their reciprocals)
+    for ns in nss:
+        xp = smcdrv.get_xp(ns)
+        for dt, exps in (("float32", (45, -50, 10)), ("float64", (400, -400, 10))):
+            fdt = np_dt(dt)
+            eps = float(np.finfo(fdt).eps)
+            for ex in exps:
+                widths = [2.0 ** ex, 2.0 ** (ex + 1), 2.0 ** (ex - 1)]
+                lows = [-w / 4 for w in widths]
+                his = [lo_ + w for lo_, w in zip(lows, widths)]
+                fr = np.array([[0.25, 0.5, 0.75], [0.5, 0.125, 0.375], [0.75, 0.25, 0.5]])
+                X = np.asarray([[lo_ + w * f for lo_, w, f in zip(lows, widths, row)] for row in fr], dtype=fdt)
+                for cname, C in (("logit", LogitTransform), ("probit", ProbitTransform)):
+                    scen = {"builder": "elementary_columns", "params": {"cls": cname, "ns": ns, "dtype": dt, "exp": ex}}
+                    try:
+                        T = C(lower=np.asarray(lows, dtype=fdt), upper=np.asarray(his, dtype=fdt), xp=xp, eps=EPS_CLIP, dtype=dt)
+                        y, j = T.forward(xp.asarray(X.copy()))
+                        xb, jb = T.inverse(y)
+                        jsum = np.zeros(len(X)); jbsum = np.zeros(len(X)); ycols = []
+                        for kcol in range(3):
+                            T1 = C(lower=[lows[kcol]], upper=[his[kcol]], xp=xp, eps=EPS_CLIP, dtype=dt)
+                            y1, j1 = T1.forward(xp.asarray(X[:, kcol:kcol + 1].copy()))
+                            _, jb1 = T1.inverse(y1)
+                            ycols.append(np.asarray(smcdrv.to_np(y1), dtype=np.float64).reshape(-1))
+                            jsum += np.asarray(smcdrv.to_np(j1), dtype=np.float64).reshape(-1)
+                            jbsum += np.asarray(smcdrv.to_np(jb1), dtype=np.float64).reshape(-1)
+                    except Exception as exn:
+                        verdict.violation(f"NeverRaises|{cname}-columns|{ns}/{dt}|{type(exn).__name__}", f"{cname} over three parameters of width ~2^{ex} raised {type(exn).__name__}: {str(exn)[:120]}", scen)
+                        continue
+                    n_eval += len(X)
+                    jn = np.asarray(smcdrv.to_np(j), dtype=np.float64).reshape(-1)
+                    jbn = np.asarray(smcdrv.to_np(jb), dtype=np.float64).reshape(-1)
+                    yn = np.asarray(smcdrv.to_np(y), dtype=np.float64)
+                    tol = 64 * eps * (1 + np.abs(jsum).max())
+                    if not np.array_equal(yn, np.stack(ycols, axis=1)):
+                        verdict.violation(f"CompositeOrder|columns|{cname}|{ns}/{dt}", f"{cname} over three parameters is not the per-parameter transform side by side (widths ~2^{ex})", scen)
+                    if not (np.all(np.isfinite(jn)) and np.allclose(jn, jsum, rtol=0, atol=tol)):
+                        verdict.violation(f"JacAccumulates|columns|forward|{cname}|{ns}/{dt}", f"forward log-Jacobian {jn.tolist()} of {cname} over three parameters of width ~2^{ex} is not the sum of the per-parameter terms {jsum.tolist()}", scen)
+                    if not (np.all(np.isfinite(jbn)) and np.allclose(jbn, jbsum, rtol=0, atol=tol)):
+                        verdict.violation(f"JacAccumulates|columns|inverse|{cname}|{ns}/{dt}", f"inverse log-Jacobian {jbn.tolist()} of {cname} over three parameters of width ~2^{ex} is not the sum of the per-parameter terms {jbsum.tolist()}", scen)
     return n_eval, len(distinct)
 
 
